@@ -424,7 +424,7 @@ class CallMixin:
             prev = s.push_frame(module, key, parent=closure_parent)
             fr = s.frame
             fr.vars.update(env)
-            fr.local_names = assigned_names(fnode.body) | set(env)
+            fr.local_names = (assigned_names(fnode.body) if isinstance(fnode.body, list) else set()) | set(env)
             if cls is None and self_v is not None and isinstance(self_v, VRef):
                 m = key.split(":")[1] if ":" in key else key
                 if "." in m:
@@ -459,7 +459,11 @@ class CallMixin:
         return self.exec_block(fnode.body, st)
 
     def call_closure(self, fn, args, kwargs, st, node):
-        return self.inline_call(fn.module, fn.node, fn.name or "<closure>", None,
+        key = fn.extra or (fn.name or "<closure>")
+        c = self.schema.contracts.get(key)
+        if c is not None and not c.inline:
+            return self.apply_contract(c, None, args, kwargs, st, node)
+        return self.inline_call(fn.module, fn.node, key, None,
                                 args, kwargs, st, node, closure_parent=fn.frame)
 
     # ------------------------------------------------------------------
@@ -571,13 +575,16 @@ class CallMixin:
             self.trusted_used.add(c.key)
         else:
             self.applied.add(c.key)
-        for ck, hook in getattr(self, "at_call_hooks", []):
-            if ck == c.key:
-                hook(self, None, st, node)
         impl = getattr(c, "impl", None)
         if impl is not None:
+            for ck, hook in getattr(self, "at_call_hooks", []):
+                if ck == c.key:
+                    hook(self, None, st, node)
             return impl(self, st, self_v, args, kwargs, node)
         env = self.bind_contract_args(c, self_v, args, kwargs, st)
+        for ck, hook in getattr(self, "at_call_hooks", []):
+            if ck == c.key:
+                hook(self, env, st, node)
         cmod = c.key.split(":")[0] if ":" in c.key else getattr(c, "spec_module", None)
         caller = self.cur_key or "?"
         short = c.key.split(":")[-1]
@@ -614,12 +621,14 @@ class CallMixin:
             s.write_field(e, "cls", VInt(ct))
             for tag, eargs in c.events_:
                 s.emit(tag, [self.spec_value(a, old, env, module=cmod) for a in eargs], site)
-            s.emit(f"raise:{short}", [e], site)
+            if not getattr(c, "quiet", False):
+                s.emit(f"raise:{short}", [e], site)
             if post is not None and not LOG_CLAUSE.search(post):
                 env2 = dict(env)
                 env2["exc"] = e
                 s.assume(self.spec_eval(post, s, env2, old=old, mode="hyp", module=cmod))
-            s.notes.append(f"{short}@{site} raises {exc}")
+            if not getattr(c, "quiet", False):
+                s.notes.append(f"{short}@{site} raises {exc}")
             outs.append(("exc", s, e))
         # normal outcome
         self.havoc_modifies(c, st, env)
